@@ -121,6 +121,7 @@ def opsTrainers (a : Array String) : Option String :=
   | "weight" =>
     -- weight <variant> F K T <aff F*K*T> <sal F*T>
     --   variants: 0 mean(-1) 1 mean(-3) 2 mean(-3,-1) 3 uniform(-2) 4 sal(-1) 5 sal(-3) 6 sal(-3,-1) 7 int(-1) 8 int(-3) 9 int(-3,-1)
+    --             10 sal (-2,) tuple form
     let v := tokNat a 1; let F := tokNat a 2; let K := tokNat a 3; let T := tokNat a 4
     let afft : Tab3 F K T Float := tab3 fun f k t => fl a 5 ((f.val * K + k.val) * T + t.val)
     let st : Tab2 F T Float := tab2 fun f t => fl a (5 + F*K*T) (f.val * T + t.val)
@@ -141,6 +142,8 @@ def opsTrainers (a : Array String) : Option String :=
     | 7 => some (perF fun f => weightIntT tinyT (aff f) (s f))
     | 8 => some (perKT (weightIntF tinyT aff s))
     | 9 => some (perK (weightIntFT tinyT aff s))
+    | 10 => some (fmtFloats ((List.finRange F).flatMap fun f => (List.finRange T).map fun t =>
+        weightSalK eps (fun k => aff f k t) (s f t)))
     | _ => none
   | "cacgmmestep" =>
     -- cacgmmestep K N D eps <w K*N> <e K*D> <U K*D*D complex> <z N*D complex>; K >= 1.  Output: gamma K*N, q K*N
